@@ -21,6 +21,10 @@ def run(chk, tier):
         O.conversion_flavour(chk, F, 'R17.5', cfg)
         from props import builder as B
         B.conversion_table(chk, F, 'R17.6', cfg)
+        # R17.8 'owned leaves are single-use exactly when configured through a single-use path': a second request for an exhausted single-use
+        # value is refused by eval::eval (CannotReturnValueMoreThanOnce) whatever the fallback mode - never answered by something else
+        from props import evalcore as E_
+        E_.eval_table(chk, F, 'R17.8', cfg)
         # R17.7 the converted value is what gets stored as the response
         B.returner_error_latched(chk, F, 'R17.7', cfg)
         # R17.3 slot separation by distinct type parameters
